@@ -23,11 +23,13 @@ CONSTANTS
   M_FirstRuleWins = TRUE
   M_SourceFallsBackToInputId = TRUE
   M_PrecheckOnlyForKnownStream = TRUE
+  M_RootResetPerRecord = TRUE
+  M_ExceptionsFirst = TRUE
   SKeyMaxLen = 4
   MSyms = {1, 2}
   MDataMax = 3
   MValMax = 2
   MCi = {FALSE}
   MPairLens = {1, 2}
-INVARIANTS TypeOK RefusedOnlyIf CutIsPrefix WithinLimitUntouched MatchAgrees DataUnchanged CriAdmitted CriVerdictIgnoresAntispam ExceptionListExempts RuleListGoverns SourceKeyAgrees NoSharedCounter RefusedOnlyForStatedReasons DisabledNeverDrops ExceptionNeverDrops SpamOnlyIfBanned BanOnlyAfterThreshold UnbanWithin VerdictDetermined
+INVARIANTS TypeOK RefusedOnlyIf CutIsPrefix WithinLimitUntouched MatchAgrees DataUnchanged CriAdmitted CriVerdictIgnoresAntispam ExceptionListExempts RuleListGoverns SourceKeyAgrees NoSharedCounter RefusedOnlyForStatedReasons DeliveredDependsOnRecordOnly ExemptNeverSpam DisabledNeverDrops ExceptionNeverDrops SpamOnlyIfBanned BanOnlyAfterThreshold UnbanWithin VerdictDetermined
 CHECK_DEADLOCK FALSE
